@@ -6,7 +6,7 @@ import random
 from .common import Budget, project_scratch, script_header
 
 VALS = [None, None, 0, 1, 2, 1.0, 2.5, "a", "b", None, [1, 2], [1, 2.0], True, False, {"n": 1}, {"n": 2, "m": "x"}, {"n": {"z": 1}}]
-KEYS = ["a", "b", "c"]
+KEYS = ["a", "b", "c", "seed", "p", "ps", "speed"]       # incl. names made of the letters of the "sp." prefix
 
 
 def flat(d, pre=()):
